@@ -305,6 +305,9 @@ type goldenEntry struct {
 	Gen    string `json:"generator"`
 	SHA256 string `json:"sha256"`
 	Merged bool   `json:"merged"`
+	// ModelHash pins the generator: hash of the reference model's expected observation at the time
+	// the file was written. A drifted generator is a harness error, never a violation.
+	ModelHash string `json:"model_hash"`
 }
 
 type goldenCase struct {
@@ -403,7 +406,7 @@ func WriteGolden() error {
 		if err := os.WriteFile(filepath.Join(goldenDir(), g.name+".ice"), b, 0o644); err != nil {
 			return err
 		}
-		man = append(man, goldenEntry{g.name + ".ice", g.name, hex.EncodeToString(sum[:]), g.merged})
+		man = append(man, goldenEntry{g.name + ".ice", g.name, hex.EncodeToString(sum[:]), g.merged, fmt.Sprintf("%016x", explore.Hash(obs.Expected(g.want()).String()))})
 	}
 	return explore.WriteJSON(filepath.Join(goldenDir(), "MANIFEST.json"), man)
 }
@@ -443,6 +446,10 @@ func goldenCheck(c *explore.Ctx) {
 		sum := sha256.Sum256(data)
 		if hex.EncodeToString(sum[:]) != e.SHA256 {
 			c.R.Error = "golden file " + e.File + " does not match its pinned SHA-256"
+			return
+		}
+		if h := fmt.Sprintf("%016x", explore.Hash(obs.Expected(g.want()).String())); h != e.ModelHash {
+			c.R.Error = "the generator of golden file " + e.File + " has changed since the file was written (regenerate with cmd/mkgolden)"
 			return
 		}
 		cas := "golden file " + e.File + " (written by the pinned reference implementation)"
